@@ -57,6 +57,22 @@ def programs(tier):
             a = nest(di, sh, "(call/cc (lambda (c) (set! k c) 'a))")
             b = nest(di, sh, "(if (< n 2) (begin (set! n (+ n 1)) (k 'again)) 'b)", base=5 if not sh else 0)
             P_.append(("sibling-extents:" + ("shared-thunks" if sh else "distinct-thunks"), "(define (main) (let ((k #f) (n 0)) (let ((x %s)) (display \"x\") (let ((y %s)) (list x y n))))) (main)" % (a, b)))
+    # ---- two control events in sequence in one thread: an extent is left (normally / by a handled error / by an escape), later another
+    # continuation captured outside that extent is used (the wind list must be what it was before the extent was entered)
+    for do in (1, 2):
+        for sh in shareds:
+            firsts = [("error", "(with-handler (lambda (e) (display \"H\") 'h) %s)" % nest(do, sh, "(begin (display \"b\") (error \"boom\"))", base=3)),
+                      ("prim-error", "(with-handler (lambda (e) (display \"H\") 'h) %s)" % nest(do, sh, "(begin (display \"b\") (car 5))", base=3)),
+                      ("escape", "(call/cc (lambda (j) %s))" % nest(do, sh, "(begin (display \"b\") (j 1))", base=3)),
+                      ("normal", nest(do, sh, "(display \"b\")", base=3))]
+            for fk, first in firsts:
+                P_.append(("left-extent-then-escape:" + fk, "(define (main) (list 'r (call/cc (lambda (k) %s (display \"m\") (k 'escaped))))) (main)" % first))
+                P_.append(("left-extent-then-reentry:" + fk, "(define (main) (let ((k #f) (n 0)) (let ((v (call/cc (lambda (c) (set! k c) 0)))) (display \"v\") %s (set! n (+ n 1)) "
+                           "(if (< n 3) (k n) (list 'done v n))))) (main)" % first))
+                P_.append(("left-extent-then-reentry-under-wind:" + fk, "(define (main) (let ((k #f) (n 0)) (dynamic-wind (lambda () (display \"<9\")) (lambda () (let ((v (call/cc (lambda (c) (set! k c) 0)))) "
+                           "(display \"v\") %s (set! n (+ n 1)) (if (< n 3) (k n) (list 'done v n)))) (lambda () (display \">9\"))))) (main)" % first))
+                P_.append(("left-extent-then-sibling-extent:" + fk, "(define (main) (let ((k #f) (n 0)) %s (let ((x %s)) (display \"x\") (set! n (+ n 1)) (if (< n 2) (k 'again) (list x n))))) (main)"
+                           % (first, nest(do, sh, "(call/cc (lambda (c) (set! k c) 'a))", base=6))))
     # ---- map / pending arguments are not disturbed by re-entry
     P_ += [
         "(define (main) (let ((k #f) (n 0)) (let ((r (map (lambda (x) (call/cc (lambda (c) (if (= x 2) (set! k c) 0) x))) (list 1 2 3)))) (set! n (+ n 1)) (if (< n 2) (k 20) (list r n))))) (main)",
